@@ -135,7 +135,7 @@ def run(ctx):
                 "(16 calls, all template fields, NaN/inf/denormal/1e300 values, nested JSON attrs, delete-then-recreate, "
                 "writes after finish, unknown/deleted ids) + repeated overwrites of one key with values of every class "
                 "(finite, +-inf, NaN, denormal) + interleaved multi-study histories (ids differ from numbers; best trial of every "
-                "study after every completion) run on 9 backend configurations; every trace validated by TLC "
+                "study after every completion) + distribution-compatibility histories (which trial recorded a name first) run on 9 backend configurations; every trace validated by TLC "
                 "against StorageTrace; in addition every storage call the repository's OWN tests make (test_storages, test_cached_storage, "
                 "test_trial; thorough: study/journal/pruner/sampler tests too) is recorded per backend state and validated against "
                 "the same specification; distinct = distinct (config, call sequence) pairs")
@@ -154,6 +154,7 @@ def run(ctx):
     hs_rand = sg.histories(ctx.rng, n_fast, 16)
     hs_ow = sg.overwrite_histories(ctx.rng, 48 if ctx.quick else 500)
     hs_ms = sg.multistudy_histories(ctx.rng, 48 if ctx.quick else 500)
+    hs_ms += sg.compat_histories(ctx.rng, 60 if ctx.quick else 384)
     plan = []
     for c in sd.CONFIGS:
         if c in sd.SLOW:
